@@ -206,6 +206,50 @@ fn run_job(j: &Job) -> (u64, u64, Vec<Viol>) {
     (nodes, cmp, viols)
 }
 
+/// k+1 letters, collision-free sketch: always add the letter with the smallest count (ties: smallest id)
+/// until it is one ahead of the largest; every add changes which k letters are the most frequent
+fn leapfrog(k: usize, top: u64) -> (u64, u64, Vec<Viol>) {
+    let n = k + 1;
+    let (w, d) = (4096usize, 4usize);
+    let mut codes: Vec<u64> = vec![];
+    let mut pos: Vec<Vec<usize>> = vec![];
+    for code in 0..1_000_000u64 {
+        let p = positions(w, d, code);
+        if pos.iter().all(|q| q.iter().zip(p.iter()).all(|(a, b)| a != b)) {
+            pos.push(p);
+            codes.push(code);
+            if codes.len() == n {
+                break;
+            }
+        }
+    }
+    let letters: Vec<El> = codes.iter().enumerate().map(|(i, &c)| El { id: i as u8, code: c }).collect();
+    let mut heap: CMSHeap<El> = CMSHeap::new(k, CountMinSketch::with_params(w, d));
+    let mut truth = vec![0u64; n];
+    let mut viols = vec![];
+    let mut steps = 0u64;
+    while truth.iter().copied().max().unwrap() < top && viols.is_empty() {
+        let l = (0..n).min_by_key(|&i| (truth[i], i)).unwrap();
+        let target = truth.iter().copied().max().unwrap() + 1;
+        while truth[l] < target {
+            if let Err(p) = mccore::panics::catch(|| heap.add(letters[l].clone())) {
+                viols.push(Viol { property: "C10".into(), signature: format!("cmsheap(k={}) leapfrog add panics", k), message: format!("add panicked: {}", p), replay: json!({"k": k}) });
+                break;
+            }
+            truth[l] += 1;
+            steps += 1;
+            let res: Vec<u8> = heap.iter().map(|x| x.id).collect();
+            let min_in = res.iter().map(|&x| truth[x as usize]).min().unwrap_or(0);
+            let max_out = (0..n).filter(|i| !res.contains(&(*i as u8))).map(|i| truth[i]).max().unwrap_or(0);
+            if res.len() != k.min(truth.iter().filter(|&&t| t > 0).count()) || max_out > min_in {
+                viols.push(Viol { property: "C10".into(), signature: format!("cmsheap(k={},collision-free) leapfrog: not a maximal-frequency k-set", k), message: format!("k={}, collision-free 4096x4 sketch, exact counts {:?}: iter() yields {:?} although a missing letter has a larger count", k, truth, res), replay: json!({"structure": "CMSHeap", "k": k, "sketch": [w, d], "stream": "leapfrog over k+1 letters: always add the letter with the smallest count until it leads by one", "counts_at_failure": truth, "result": res}) });
+                break;
+            }
+        }
+    }
+    (steps, steps, viols)
+}
+
 /// one long deterministic stream, oracle at every prefix (exact counts + twin sketch)
 fn long_stream(k: usize, w: usize, d: usize, len: usize) -> (u64, u64, Vec<Viol>) {
     const L: usize = 40;
@@ -310,9 +354,12 @@ fn main() {
     // long deterministic streams (hundreds of adds, large counts): Zipf-like and block patterns over 40
     // letters on small sketches; same oracle at every prefix
     let long_res = par_map(&[(2usize, 8usize, 2usize), (5, 16, 3), (3, 1, 1), (8, 64, 4)], n_threads(), |&(k, w, d)| long_stream(k, w, d, if thorough { 6000 } else { 1500 }));
+    // leapfrog streams: k+1 letters that keep overtaking the current minimum by exactly one, far beyond
+    // counts of 128 / 256 (collision-free sketch: the result must always be a maximal-frequency k-set)
+    let leap_res = par_map(&[1usize, 2, 3, 5], n_threads(), |&k| leapfrog(k, if thorough { 1200 } else { 400 }));
     let res = par_map(&jobs, n_threads(), run_job);
     let (mut nodes, mut cmp) = (0u64, 0u64);
-    for (n, c, vs) in res.into_iter().chain(long_res) {
+    for (n, c, vs) in res.into_iter().chain(long_res).chain(leap_res) {
         nodes += n;
         cmp += c;
         for v in vs {
